@@ -51,6 +51,8 @@ enum PassMode {
 #[derive(Clone, Debug)]
 struct ParamDef {
     name: Option<String>,
+    /// spelling of the declared type (qualified)
+    type_name: String,
     ty: CTy,
     mode: PassMode,
     default: Option<ast::Expression>,
@@ -65,6 +67,8 @@ struct FuncDef {
     params: Vec<ParamDef>,
     body: Vec<ast::Statement>,
     owner: Option<usize>,
+    /// `template<typename>` instantiation emitted by the exporters
+    template_instance: bool,
 }
 
 #[derive(Clone, Debug)]
@@ -280,6 +284,7 @@ impl<'a> CExec<'a> {
             }
             params.push(ParamDef {
                 name,
+                type_name: qualified(&p.param_type.layout.0),
                 ty,
                 mode,
                 default: p.default_expr.clone(),
@@ -292,6 +297,7 @@ impl<'a> CExec<'a> {
             params,
             body: body.clone(),
             owner,
+            template_instance: !f.template_params.0.is_empty(),
         });
         Ok(Some(self.funcs.len() - 1))
     }
@@ -448,6 +454,16 @@ impl<'a> CExec<'a> {
     /// Names and parameter shapes of callable free functions: (qualified name, index)
     pub fn free_functions(&self) -> Vec<(String, usize)> {
         self.funcs.iter().enumerate().filter(|(_, f)| f.owner.is_none()).map(|(i, f)| (f.qname.clone(), i)).collect()
+    }
+
+    /// Free functions that are not template instantiations (what a source level, non-template function can correspond to)
+    pub fn plain_free_functions(&self) -> Vec<(String, usize)> {
+        self.funcs.iter().enumerate().filter(|(_, f)| f.owner.is_none() && !f.template_instance).map(|(i, f)| (f.qname.clone(), i)).collect()
+    }
+
+    /// True if the function takes the `metal::true_type` tag that marks the inner function of an out/inout trampoline pair
+    pub fn has_trampoline_tag(&self, f: usize) -> bool {
+        self.funcs[f].params.iter().any(|p| p.type_name == "metal::true_type")
     }
 
     pub fn param_count(&self, f: usize) -> usize {
